@@ -54,7 +54,7 @@ uint64_t vhash(const void *p, size_t n, uint64_t h);  // FNV-1a 64, chainable
 
 enum {
 	GD_EMPTY, GD_ONE, GD_RANDOM, GD_RUNS, GD_TEXT, GD_LONGDIST, GD_PERIODIC,
-	GD_ZERORUNS, GD_MIXED, GD_CODE_X86, GD_CODE_FIXED32, GD_LOWENT,
+	GD_ZERORUNS, GD_MIXED, GD_CODE_X86, GD_CODE_FIXED32, GD_LOWENT, GD_MARKOV,
 	GD_COUNT
 };
 extern const char *const gd_names[GD_COUNT];
@@ -66,6 +66,10 @@ int gen_data(vrng *r, vbuf *out, size_t size, int kind, size_t hint);
 
 /// Sizes clustered at 0, 1, small, and around interesting limits.
 size_t gen_size(vrng *r, size_t max);
+
+/// Overwrite the tail of buf with one instruction that the BCJ filter `filter_id` (LZMA_FILTER_*) converts, so that
+/// the stream ends exactly at an instruction boundary (end-of-stream handling of the filters).
+void gen_tail_insn(vrng *r, lzma_vli filter_id, uint8_t *buf, size_t n);
 
 /////////////
 // gen_cfg //
